@@ -10,6 +10,8 @@ from .c08 import admissible
 ID = 'C14'
 LEVEL = 'exploration'
 ASSUMPTIONS = [
+    'every edit is explored in two orders: at once on the fresh parse, and after every documented view, per-node text and '
+    'search of the tree has been looked at once (lazily computed state must not survive the edit)',
     'targets: every command and named environment (math delimiter pseudo-names are not renamed); .string on single-argument '
     'commands and on argument-less environments / math regions whose only content is one text',
     'new names come from a pool of plain identifiers disjoint from every table that changes the reading; one of them is a '
@@ -88,11 +90,13 @@ def plan(src, items):
     return out
 
 
-def apply(src, edit):
+def apply(src, edit, pre=False):
     soup, exc = egram.parse(src)
     if exc is not None:
         raise exc
     T = egram.types()
+    if pre:
+        egram.observe(soup)      # the order 'look at everything, then edit': nothing computed before may survive
     node = node_targets(soup, T)[edit[1]]
     op = edit[0]
     info = {'old': str(node.name), 'node': node}
@@ -114,10 +118,10 @@ def apply(src, edit):
     return soup, info, before
 
 
-def check_edit(acc, src, items, edit, want, size):
-    case = {'src': src, 'items': items, 'edit': edit}
+def check_edit(acc, src, items, edit, want, size, pre=False):
+    case = {'src': src, 'items': items, 'edit': edit, 'pre': pre}
     try:
-        soup, info, before = apply(src, edit)
+        soup, info, before = apply(src, edit, pre)
     except Exception as e:
         acc.violation('edit-raises', case, want, egram.exc_repr(e), size)
         return
@@ -154,7 +158,7 @@ def check_edit(acc, src, items, edit, want, size):
     if op == 'args' and len(node.args) == 0:
         skip_reparse = True          # the following characters may now be read as part of the name / as arguments
     if not admissible(got) or skip_reparse == 'all':
-        acc.ok(hash((src, repr(edit))), cls=op + ':reparse-outside-side-condition')
+        acc.ok(hash((src, repr(edit), pre)), cls=op + ':reparse-outside-side-condition')
         return           # e.g. \\textbf stripped of its brace argument: the re-reading is outside C08/C16's domain
     s2, exc = egram.parse(got)
     if exc is not None:
@@ -166,10 +170,10 @@ def check_edit(acc, src, items, edit, want, size):
     if not skip_reparse and canon(s2) != canon(soup):
         acc.violation('reparse-tree', case, canon(soup), canon(s2), size)
         return
-    acc.ok(hash((src, repr(edit))), cls=op)
+    acc.ok(hash((src, repr(edit), pre)), cls=op)
 
 
-def check_doc(acc, src, items, only=None):
+def check_doc(acc, src, items, only=None, only_pre=None):
     pl = plan(src, items)
     if pl is None:
         acc.extra['skipped_not_roundtripping'] += 1
@@ -178,7 +182,9 @@ def check_doc(acc, src, items, only=None):
     for edit, want in pl:
         if only is not None and edit != only:
             continue
-        check_edit(acc, src, items, edit, want, size)
+        for pre in (False, True):
+            if only_pre is None or only_pre == pre:
+                check_edit(acc, src, items, edit, want, size, pre)
     if acc.evals % 499 == 1 and pl:
         acc.sample({'src': src, 'edit': pl[0][0], 'expected': pl[0][1]})
 
@@ -205,7 +211,7 @@ def run_shard(shard):
 
 def replay(case):
     acc = Acc()
-    check_doc(acc, case['src'], gram.tuplify(case['items']), only=case['edit'])
+    check_doc(acc, case['src'], gram.tuplify(case['items']), only=case['edit'], only_pre=case.get('pre'))
     return acc.viol
 
 
